@@ -508,7 +508,10 @@ def run(ck, F):
     #   A  lower_bound(table, w, lt), then the hit is confirmed by an equality test on the text (and the end is excluded)
     #   B  equal_range(table, w, lt2), null exactly when the range is empty
     def whole_table(call):
-        return sum(1 for n in walk(call) if n.get('k') == 'ref' and n.get('name') == 'known_words') >= 2
+        # [begin(known_words), end(known_words)), the two ends possibly kept in locals that are never reassigned
+        from facts import through_locals
+        args2 = [through_locals(wk[0], a) for a in (call.get('args') or [])[:2]]
+        return sum(1 for a in args2 for n in walk(a) if n.get('k') == 'ref' and n.get('name') == 'known_words') >= 2
     algos = [n for n in walk(body) if n.get('k') == 'call' and (n.get('callee') or {}).get('name') in ('lower_bound', 'equal_range')
              and (n.get('callee') or {}).get('repo') is False]
     idiom, over, confirm = None, False, False
